@@ -45,7 +45,9 @@ func main() {
 	primsAES(r)
 	primsTrees(r)
 	primsPerms(r)
+	primsPasswords(r)
 	e2eC22(r)
+	e2ePasswords(r)
 	e2eEmdFalse(r)
 }
 
